@@ -33,6 +33,16 @@ impl Driven for D {
          _ => panic!("verif harness: unknown relation {}", rel),
       }
    }
+   fn clear(&mut self, rel: &str) {
+      match rel {
+         "e" => { self.0.e = Default::default(); },
+         "p" => { self.0.p = Default::default(); },
+         "node" => { self.0.node = Default::default(); },
+         "unreach" => { self.0.unreach = Default::default(); },
+         "sink" => { self.0.sink = Default::default(); },
+         _ => panic!("verif harness: unknown relation {}", rel),
+      }
+   }
    fn run(&mut self) { self.0.run(); }
    fn dump(&self) -> Value {
       let mut m: Vec<(String, Value)> = vec![];
